@@ -101,10 +101,12 @@ theorem step_views (w : World) (op : Op) : ViewsStep w op (step w op).1 := by
       repeat' split
       all_goals first | exact .same rfl | exact .upd v { v with offset := n } hv rfl rfl (fun h => h) rfl | exact .upd v { v with offset := v.offset + n } hv rfl rfl (fun h => h) rfl | exact .upd v { v with offset := (v.stop - v.start) - n } hv rfl rfl (fun h => h) rfl
     | slice i a b s =>
-      simp only [stepView, doSlice, fail]
+      simp only [stepView, doSlice, doSliceOrig, fail]
       split
-      · exact .app v a b hv rfl
       · exact .same rfl
+      · split
+        · exact .app v a b hv rfl
+        · exact .same rfl
     | close i =>
       simp only [stepView, doClose, fail, done]
       repeat' split
@@ -113,7 +115,7 @@ theorem step_views (w : World) (op : Op) : ViewsStep w op (step w op).1 := by
       simp only [stepView, doFree, fail]
       repeat' split
       all_goals exact .same rfl
-    | index i => exact .same rfl
+    | index i => simp only [stepView, fail]; split <;> exact .same rfl
     | len i => exact .same rfl
     | tell i => simp only [stepView, fail, done]; split <;> exact .same rfl
     | address i => simp only [stepView, fail, done]; split <;> exact .same rfl
@@ -144,8 +146,9 @@ theorem step_xy (w : World) (op : Op) : (step w op).1.x = w.x ∧ (step w op).1.
       repeat' split
       all_goals exact ⟨rfl, rfl⟩
     | slice i a b s =>
-      simp only [stepView, doSlice, fail]
-      split <;> exact ⟨rfl, rfl⟩
+      simp only [stepView, doSlice, doSliceOrig, fail]
+      repeat' split
+      all_goals exact ⟨rfl, rfl⟩
     | close i =>
       simp only [stepView, doClose, fail, done]
       repeat' split
@@ -154,7 +157,7 @@ theorem step_xy (w : World) (op : Op) : (step w op).1.x = w.x ∧ (step w op).1.
       simp only [stepView, doFree, fail]
       repeat' split
       all_goals exact ⟨rfl, rfl⟩
-    | index i => exact ⟨rfl, rfl⟩
+    | index i => simp only [stepView, fail]; split <;> exact ⟨rfl, rfl⟩
     | len i => exact ⟨rfl, rfl⟩
     | tell i => simp only [stepView, fail, done]; split <;> exact ⟨rfl, rfl⟩
     | address i => simp only [stepView, fail, done]; split <;> exact ⟨rfl, rfl⟩
@@ -171,8 +174,9 @@ theorem step_freed (w : World) (op : Op) (h : w.freed = true) : (step w op).1.fr
     | write i d => simp [stepView, doWrite, fail, hd, h]
     | seek i n wh => simp [stepView, doSeek, fail, hd, h]
     | slice i a b s =>
-      simp only [stepView, doSlice, fail]
-      split <;> exact h
+      simp only [stepView, doSlice, doSliceOrig, fail]
+      repeat' split
+      all_goals exact h
     | close i =>
       simp only [stepView, doClose, fail, done, hd]
       repeat' split
@@ -181,7 +185,7 @@ theorem step_freed (w : World) (op : Op) (h : w.freed = true) : (step w op).1.fr
       simp only [stepView, doFree, fail, h]
       repeat' split
       all_goals first | exact h | rfl
-    | index i => exact h
+    | index i => simp only [stepView, fail]; split <;> exact h
     | len i => exact h
     | tell i => simp [stepView, fail, hd, h]
     | address i => simp [stepView, fail, hd, h]
@@ -463,13 +467,13 @@ theorem run_freed (ops : List Op) : ∀ (w : World), w.freed = true → (run w o
   | nil => intro w h; exact h
   | cons op ops ih => intro w h; simp only [run]; exact ih _ (step_freed w op h)
 
-/-- an I/O call on a dead view raises OSError, changes nothing and touches no memory -/
+/-- a file operation or a slicing on a dead view raises OSError, changes nothing and touches no memory -/
 theorem step_dead (w : World) (op : Op) (v : View) (hv : w.views[op.target]? = some v)
-    (hd : dead w v = true) (hio : op.isIO = true) :
+    (hd : dead w v = true) (hio : op.mustFail = true) :
     step w op = (w, ⟨.err .osError, false, none⟩) := by
   unfold step
   rw [hv]
-  cases op <;> simp_all [stepView, doRead, doWrite, doSeek, fail, Op.isIO]
+  cases op <;> simp_all [stepView, doRead, doWrite, doSeek, doSlice, fail, Op.isIO, Op.mustFail]
 
 theorem step_freed_noaccess (w : World) (op : Op) (h : w.freed = true) : (step w op).2.access = none := by
   unfold step
@@ -478,7 +482,7 @@ theorem step_freed_noaccess (w : World) (op : Op) (h : w.freed = true) : (step w
   · rename_i v hv
     have hd : dead w v = true := by simp [dead, h]
     cases op with
-    | slice i a b s => simp only [stepView, doSlice, fail]; split <;> rfl
+    | slice i a b s => simp [stepView, doSlice, fail, hd]
     | close i =>
       simp only [stepView, doClose, fail, done, hd]
       repeat' split
@@ -519,14 +523,14 @@ theorem step_confined_lem (w : World) (op : Op) (a : Access) (h : (step w op).2.
       repeat' split at h
       all_goals simp at h
     | slice i a b s =>
-      simp only [stepView, doSlice, fail, done] at h
+      simp only [stepView, doSlice, doSliceOrig, fail, done] at h
       repeat' split at h
       all_goals simp at h
     | close i =>
       simp only [stepView, doClose, fail, done] at h
       repeat' split at h
       all_goals simp at h
-    | index i => simp [stepView, fail] at h
+    | index i => simp only [stepView, fail] at h; split at h <;> simp at h
     | len i => simp [stepView, done] at h
     | tell i => simp only [stepView, fail, done] at h; split at h <;> simp at h
     | address i => simp only [stepView, fail, done] at h; split at h <;> simp at h
